@@ -465,8 +465,10 @@ fn bfs(
         let next: Mutex<Vec<St>> = Mutex::new(vec![]);
         let aborted = AtomicBool::new(false);
         let t0 = ctx.elapsed();
+        // quick tier: the depth given by the caller is the bound; the clock is only a safety net
+        let deadline_s = if ctx.tier.is_quick() { ctx.hard_cap_s() } else { deadline_s };
         let remaining = deadline_s - ctx.elapsed();
-        if depth > 2 {
+        if depth > 2 && !ctx.tier.is_quick() {
             let est = frontier.len() as f64 * all_ops.len() as f64 * per_transition / 16.0;
             if est > remaining {
                 eprintln!("[C10] {} depth {}: {} states x {} ops estimated {:.0}s > remaining {:.0}s: not started", name, depth, frontier.len(), all_ops.len(), est, remaining);
